@@ -140,6 +140,7 @@ theorem owner_applyWrite {s s' : St} {c : Call}
 /-- The ownership record of a block is single valued and never handed from one host
 to another: across ANY step of ANY execution a stored block's affinity stays the
 same or becomes none (ownership can only be taken by creating an absent block). -/
+/- one-step helper of `one_owner_record_partial` -/
 theorem owner_record_step (s s' : St) (e : Ev) (h : step s e = some s')
     (b r r' : Nat) (v v' : Blk) (hb : s.blk b = some (r, v)) (hb' : s'.blk b = some (r', v')) :
     v'.aff = v.aff ∨ v'.aff = none := by
@@ -378,13 +379,14 @@ theorem claim_invalidates_concurrent_release (r0 nb : Nat) (evs1 evs2 : List Ev)
   rcases hverb with e | e <;> subst e <;> cases f <;> simp [casOutcome, hne]
 
 
-/-- The claim paths as call sequences (`step22`): in every run, a write of a BlockAffinity to
+/-- (`_partial`: the `licStep` guard unfolded; its content is the driver evaluating it on every
+real call.)  The claim paths as call sequences (`step22`): in every run, a write of a BlockAffinity to
 `confirmed` by thread `t` succeeds only if `t` holds the licence for exactly that (host,
 block) — obtained, since its last `pending` write, by its own block create, its own read
 after a lost create, or its own block rewrite.  (The guard of `licStep`; the driver
 evaluates it on every real call, so a DROPPED block rewrite in getBlockFromAffinity is a
 model/code disagreement.) -/
-theorem confirm_requires_own_block_write (s s' : St22) (c : Call) (x b : Nat)
+theorem confirm_requires_own_block_write_partial (s s' : St22) (c : Call) (x b : Nat)
     (h : step22 s (.call c) = some s') (hk : c.key = Key.aff x b) (hv : c.verb = Verb.update)
     (hp : c.pl = Payload.affSt AffSt.confirmed)
     (hok : casOutcome (s.cas.curRev c.key) c.verb c.rev c.fault = Outcome.ok) :
@@ -416,14 +418,20 @@ def w (t : Nat) (verb : Verb) (key : Key) (rev : Option Nat) (pl : Payload) : Ev
 `ClaimAffinity(host 1, block 0)`, no fault: 7 re-marks the affinity pending after 6
 marked it pendingDeletion, sees the block still there and affine to host 1; 6
 deletes the block (its block revision is still current); 7 confirms. -/
+def rd (t : Nat) (key : Key) : Ev :=
+  .call { t := t, fault := .none, verb := .get, key := key, rev := none, pl := .noev }
+
 def raceTrace : List Ev :=
   [w 2 .create (.aff 1 0) none (.affSt .pending),          -- rev 104
    w 2 .create (.blk 0) none (.blkCreate 1 2),             -- rev 105
    w 2 .update (.aff 1 0) (some 104) (.affSt .confirmed),  -- rev 106
    w 7 .create (.aff 1 0) none .noev,                      -- exists
+   rd 6 (.aff 1 0), rd 6 (.blk 0),
    w 6 .update (.aff 1 0) (some 106) (.affSt .pendingDeletion), -- rev 107
+   rd 7 (.aff 1 0),
    w 7 .update (.aff 1 0) (some 107) (.affSt .pending),    -- rev 108
    w 7 .create (.blk 0) none .noev,                        -- exists
+   rd 7 (.blk 0),                                          -- "already claimed by this host"
    w 6 .delete (.blk 0) (some 105) (.blkDelete [] none []),-- rev 109
    w 7 .update (.aff 1 0) (some 108) (.affSt .confirmed)]  -- rev 110
 
@@ -434,27 +442,40 @@ def raceTrace2 : List Ev := raceTrace ++
    w 8 .create (.blk 0) none (.blkCreate 0 2),             -- rev 112
    w 8 .update (.aff 0 0) (some 111) (.affSt .confirmed)]  -- rev 113
 
-def raceEnd : St := (run (St.init 103 2) raceTrace).getD (St.init 0 0)
-def raceEnd2 : St := (run (St.init 103 2) raceTrace2).getD (St.init 0 0)
+def init22 : St22 := { cas := St.init 103 2, l := Lic.init }
+def raceEnd : St22 := (run22 init22 raceTrace).getD init22
+def raceEnd2 : St22 := (run22 init22 raceTrace2).getD init22
 
-theorem run_race : run (St.init 103 2) raceTrace = some raceEnd := by rfl
-theorem run_race2 : run (St.init 103 2) raceTrace2 = some raceEnd2 := by rfl
+theorem run_race : run22 init22 raceTrace = some raceEnd := by rfl
+theorem run_race2 : run22 init22 raceTrace2 = some raceEnd2 := by rfl
 
-/-- "A block's recorded affinity matches its confirmed claim" is false of the code. -/
+/-- "A block's recorded affinity matches its confirmed claim" is false of the code — refuted
+over `run22`, i.e. over runs that ALSO satisfy the claim-path call-sequence model the driver
+checks on the real client (affinity objects created pending only; a confirm only after the
+thread's own block create / read after a lost create / block rewrite).  The trace is the
+real client's log (reads included), corpus/C22/two-confirmed.ops. -/
 theorem affinity_matches_block_false :
-    ¬ (∀ evs s, run (St.init 103 2) evs = some s → ConfirmedMatches s) := by
+    ¬ (∀ evs s, run22 init22 evs = some s → ConfirmedMatches s.cas) := by
   intro H
   obtain ⟨rv, v, hb, _⟩ := H raceTrace raceEnd run_race 1 0 110 (by decide)
-  have : raceEnd.blk 0 = none := by decide
+  have : raceEnd.cas.blk 0 = none := by decide
   rw [this] at hb; cases hb
 
 /-- "A block is confirmed as affine to at most one host" (as a statement about
-BlockAffinity objects) is false of the code. -/
+BlockAffinity objects) is false of the code — again over `run22`. -/
 theorem one_confirmed_owner_false :
-    ¬ (∀ evs s, run (St.init 103 2) evs = some s → OneConfirmed s) := by
+    ¬ (∀ evs s, run22 init22 evs = some s → OneConfirmed s.cas) := by
   intro H
   have := H raceTrace2 raceEnd2 run_race2 1 0 0 110 113 (by decide) (by decide)
   cases this
+
+/-- The licence model is not vacuous the other way: confirming without the thread's own block
+write is NOT a run (this is the seeded "dropped block rewrite" of getBlockFromAffinity). -/
+example : (run22 init22
+    [w 2 .create (.aff 1 0) none (.affSt .pending), w 2 .create (.blk 0) none (.blkCreate 1 2),
+     rd 4 (.aff 1 0), rd 4 (.blk 0),
+     w 4 .update (.aff 1 0) (some 104) (.affSt .pending),
+     w 4 .update (.aff 1 0) (some 106) (.affSt .confirmed)]).isSome = false := by decide
 
 /-- non-vacuity: a strict-affinity allocation step as in `pending_not_ownership`. -/
 example : ∃ s s', run (St.init 100 1)
